@@ -32,7 +32,11 @@ variable {K : Type} [Field K] [LinearOrder K] [IsStrictOrderedRing K]
 
 /-- `spencer_and_murty.reflect` is the model's mirror formula -/
 theorem gen_reflect (S r : V3 K) : Generated.C19.reflect S r = Model.C19.reflect S r := by
-  simp only [Generated.C19.reflect, Model.C19.reflect]
+  first
+    | rfl
+    | (simp only [Generated.C19.reflect, Model.C19.reflect]; done)
+    | (simp only [Generated.C19.reflect, Model.C19.reflect, V3.sub, V3.smul, V3.dot]
+       refine V3.ext' ?_ ?_ ?_ <;> ring)
 
 /-- the laws through which `np.sqrt` and `np.copysign` enter the refraction theorems (instantiated with the real functions at
 the end of the file) -/
@@ -49,7 +53,10 @@ theorem gen_refract (sqrt : K → K) (csgn : K → K → K) (h : RootLaws sqrt c
     Generated.C19.refract sqrt csgn ltK n n' S r = Model.C19.refract sqrt ltK n n' S r := by
   first
     | rfl
-    | (simp only [Generated.C19.refract, Model.C19.refract, h.cs, abs_of_nonneg (h.nonneg _), ltK, decide_eq_true_eq])
+    | (simp only [Generated.C19.refract, Model.C19.refract, h.cs, abs_of_nonneg (h.nonneg _), ltK, decide_eq_true_eq]; done)
+    | (simp only [Generated.C19.refract, Model.C19.refract, h.cs, abs_of_nonneg (h.nonneg _), ltK, decide_eq_true_eq,
+         V3.add, V3.sub, V3.smul, V3.dot]
+       ring_nf)
 
 /-- `raytrace` hands `reflect` and `refract` exactly the vector returned by `intersect`, i.e. the un-normalised
 surface gradient `(−F_x, −F_y, 1)` (so both formulas must cope with a normal of any length) -/
@@ -95,9 +102,13 @@ theorem gen_conic (sqrt : K → K) (c k rho rhosq phi : K) :
     Generated.C19.conicSagDer sqrt c k rho = conicSagDer c rho (sqrt (phiSq c k (rho * rho))) ∧
     Generated.C19.phiSpheroid sqrt c k rhosq = sqrt (phiSq c k rhosq) ∧
     Generated.C19.conicSagPhi c k rhosq phi = conicSag c rhosq phi := by
-  refine ⟨?_, ?_, ?_, ?_⟩ <;>
-    simp only [Generated.C19.conicSag, Generated.C19.conicSagDer, Generated.C19.phiSpheroid,
-      Generated.C19.conicSagPhi, conicSag, conicSagDer, phiSq]
+  refine ⟨?_, ?_, ?_, ?_⟩ <;> first
+    | rfl
+    | (simp only [Generated.C19.conicSag, Generated.C19.conicSagDer, Generated.C19.phiSpheroid,
+        Generated.C19.conicSagPhi, conicSag, conicSagDer, phiSq]; done)
+    | (simp only [Generated.C19.conicSag, Generated.C19.conicSagDer, Generated.C19.phiSpheroid,
+        Generated.C19.conicSagPhi, conicSag, conicSagDer, phiSq]
+       ring_nf)
 
 /-- the closure `Surface.off_axis_conic(...).FFp` is the parent conic evaluated at shifted coordinates -/
 theorem gen_offaxis_ffp (sqrt : K → K) (c k dx dy x y : K) :
